@@ -396,7 +396,12 @@ func TestC09Connect(t *testing.T) {
 			// a session initialised earlier with a plain Config, adopted with this one
 			w0 := sim.New(rt, sim.Options{Config: baseConfig(), ClientID: id, Prop: "C09"})
 			w0.Shutdown(2 * time.Second)
-			w = sim.New(rt, sim.Options{Config: cfg, Adopt: true, Store: w0.Store.Content(), ClientID: id, Prop: "C09"})
+			content := w0.Store.Content()
+			if rapid.Bool().Draw(rt, "junkRecordInTheStore") {
+				// (something AdoptSession would clean up: a refused call must leave it alone)
+				content[0x8003] = []byte("no record at all")
+			}
+			w = sim.New(rt, sim.Options{Config: cfg, Adopt: true, Store: content, ClientID: id, Prop: "C09"})
 		} else {
 			adopt = false
 			w = sim.New(rt, sim.Options{Config: cfg, ClientID: id, Prop: "C09"})
